@@ -234,7 +234,7 @@ def stochastic_raytracing(  # TODO: add test
             light = light and not grid[pos].blocks_vision
 
     probs = np.nan_to_num(counts_num / counts_den)
-    visibility = rng.random(probs.shape) <= probs
+    visibility = rng.random(probs.shape) < probs
     return visibility
 
 
